@@ -217,6 +217,17 @@ func (f *fileInst) stmt(s ast.Stmt) {
 		f.scanExpr(st.Init, &info)
 		f.scanExpr(st.Cond, &info)
 		f.wrap(s, info, false)
+		if info.blocking {
+			// the header may really block (e.g. `if err := sem.Acquire(ctx, 1); err != nil`): the
+			// woken goroutine must re-park wherever control continues
+			site := f.site(st.Pos())
+			f.insert(st.Body.Lbrace+1, fmt.Sprintf(" zzsimrt.Resume(%q); ", site), 1)
+			if eb, ok := st.Else.(*ast.BlockStmt); ok {
+				f.insert(eb.Lbrace+1, fmt.Sprintf(" zzsimrt.Resume(%q); ", site), 1)
+			}
+			f.insert(st.End(), fmt.Sprintf("; zzsimrt.Resume(%q)", site), 9)
+			f.stats["resume_if"]++
+		}
 		f.funcLitsIn(st.Init)
 		f.funcLitsIn(st.Cond)
 		f.stmtList(st.Body.List)
